@@ -19,6 +19,9 @@ import (
 	"soyverif/cmd/tablegen/gtfix"
 )
 
+// the decoder of Model/Utf8.v for the parameter f_utf8_DecodeRuneInString
+const stDec = "(fun s => let '(r, w) := decode_rune s in (Z.of_N r, Z.of_nat w))"
+
 func cz(n int64) string { return zLitInt(n) }
 func cb(b bool) string  { return coqBool(b) }
 func cs(s string) string {
@@ -56,6 +59,56 @@ func TestGotransFixtures(t *testing.T) {
 	cases := map[string][]fixCase{}
 	add := func(name, args string, run func() string) {
 		cases[name] = append(cases[name], fixCase{args, run})
+	}
+	for _, s := range strs {
+		for _, n := range []int{0, 1, 2, 3, 4, 7} {
+			s, n := s, n
+			add("FallJoin", cs(s)+" "+cz(int64(n)), func() string { return cz(int64(gtfix.FallJoin(s, n))) })
+		}
+	}
+	for _, s := range append(strs, "h\xffé!l", "\xe2\x82", "日本語l!x", "\xf0\x9f\x98\x80") {
+		s := s
+		for _, n := range []int{0, 3, 100} {
+			n := n
+			add("BufJoin", cs(s)+" "+cz(int64(n)), func() string { return cs(gtfix.BufJoin(s, n)) })
+		}
+		add("RuneSum", stDec+" "+cs(s), func() string { return cz(int64(gtfix.RuneSum(s))) })
+		add("RuneIdx", stDec+" "+cs(s), func() string { return cz(int64(gtfix.RuneIdx(s))) })
+	}
+	{
+		named := func(s string) gtfix.Named {
+			if s == "<nil>" {
+				return nil
+			}
+			return gtfix.Lit(s)
+		}
+		optS := func(s string) string {
+			if s == "<nil>" {
+				return "None"
+			}
+			return "(Some " + cs(s) + ")"
+		}
+		for _, a := range []string{"<nil>", "", "a'b"} {
+			for _, l := range [][]string{nil, {"x"}, {"x", "", "yz"}, {"x", "<nil>"}} {
+				a, l := a, l
+				w := &gtfix.Wrap{Name: "n" + a, A: named(a), N: len(l) - 1}
+				var elems []string
+				for _, e := range l {
+					w.L = append(w.L, named(e))
+					elems = append(elems, optS(e))
+				}
+				ls := "(@nil (option bstr))"
+				if len(elems) > 0 {
+					ls = "[" + strings.Join(elems, "; ") + "]"
+				}
+				astr := cs(a)
+				if a == "<nil>" {
+					astr = cs("junk")
+				}
+				args := cb(a == "<nil>") + " " + astr + " " + ls + " " + cs(w.Name) + " " + cz(int64(w.N))
+				add("ShowWrap", args, func() string { return cs(gtfix.ShowWrap(w)) })
+			}
+		}
 	}
 	for _, x := range ints {
 		x := x
@@ -237,7 +290,7 @@ func TestGotransFixtures(t *testing.T) {
 	if len(g.problem) > 0 {
 		t.Fatalf("problems: %v", g.problem)
 	}
-	src := "From Soy Require Import Model.Bytes.\nOpen Scope N_scope.\n\n" + gtPrelude + gtPrelude2 + defs.String() + "\n" + examples.String()
+	src := "From Soy Require Import Model.Bytes Model.Utf8.\nOpen Scope N_scope.\n\n" + gtPrelude + gtPrelude2 + defs.String() + "\n" + examples.String()
 
 	coqDir := os.Getenv("VERIF_COQ")
 	if coqDir == "" {
